@@ -981,7 +981,42 @@ def corpus(ctx, res):
     check_binarize(ctx, res, [t] + stars)
 
 
+def binarize_history(cases, pick):
+    """call / edit-in-place / call on ONE tree object: `binarize(t)`, then an internal non-root node of t is
+    collapsed in place (`node.delete()`: its children join its parent), then `binarize(t)` again; the second
+    answer must be the refinements of the tree AS IT IS NOW.  Returns (case, None | what fails) for the first
+    failing history."""
+    for t in cases:
+        tree = to_ete(t)
+        inner = [n for n in tree.traverse() if not n.is_leaf() and not n.is_root()]
+        if not inner:
+            continue
+        try:
+            first = binarize(tree)
+            first = [first] if isinstance(first, Tree) else list(first)
+            vi = pick(len(inner))
+            victim = inner[vi]
+            victim.delete(prevent_nondicotomic=False)
+            now = from_ete(tree)
+            second = binarize(tree)
+            second = [second] if isinstance(second, Tree) else list(second)
+            got = sorted(canon_ete(r) for r in second)
+        except Exception as e:  # noqa
+            return {"kind": "binarize-history", "tree": t}, f"binarize on an edited tree raised {type(e).__name__}: {e}"
+        want = sorted(canon_nested(r) for r in refinements(now))
+        if got != want:
+            return ({"kind": "binarize-history", "tree": t, "after_edit": now, "victim": vi},
+                    f"binarize called again after the same tree object was edited in place returns {len(got)} "
+                    f"refinements; the tree as it is now has {len(want)} (first call: {len(first)})")
+    return None, None
+
+
 def run(ctx, res):
+    hist = [t for t in enumerator_cases(ctx) if has_polytomy(t) or True][: ctx.budget(150, 1500)]
+    case, bad = binarize_history(hist, lambda k: ctx.rng.randrange(k))
+    res.dist["binarize: call / edit in place / call histories"] += len(hist)
+    if bad:
+        res.violation(bad, case)
     check_graft(ctx, res)
     check_arrange(ctx, res)
     check_binarize(ctx, res, enumerator_cases(ctx))
@@ -1003,6 +1038,9 @@ def replay(ctx, data):
     inp = data["input"]
     r = Result()
     kind = inp.get("kind")
+    if kind == "binarize-history":
+        _, bad = binarize_history([inp["tree"]], lambda k: min(inp.get("victim", 0), k - 1))
+        return bad is None, ("ok: property holds on this history" if bad is None else "still fails: " + bad)
     if kind == "binarize":
         check_binarize(ctx, r, [inp["tree"]])
     elif kind in ("input", "solve"):
